@@ -215,8 +215,19 @@ def run(ctx: Ctx):
                         continue          # recursion depth of the newick parser, not a subject of this property
                     try:
                         dic = build(kind, n, seqfn, rnd, tip_states, bl=bl)
+                    except RecursionError:
+                        continue
+                    try:
                         got = float(dic["like"]())
                     except RecursionError:
+                        continue
+                    except Exception as e:
+                        # the likelihood of a valid tree and alignment is a number at every size: an exception of the real kernel
+                        # (e.g. on the evaluation that switches rescaling on) is a loss of the value, not a failure of this machinery
+                        ctx.add("evaluations")
+                        ctx.violation(f"C03:sweep:raises:{'states' if tip_states else 'partials'}",
+                                      f"{kind} tree, {n} tips, {tag} columns, tip {'states' if tip_states else 'partials'}: evaluating the log-likelihood raised "
+                                      f"{type(e).__name__}: {str(e)[:120]}", {"kind": kind, "n": n, "tip_states": tip_states, "columns": tag})
                         continue
                     want, l2 = reference(dic)
                     cls = classify(l2)
@@ -280,6 +291,8 @@ def run(ctx: Ctx):
             ctx.distinct(("history", tip_states, json.dumps(plan)))
     verdicts = validate_traces(ctx, traces, POLICY)
     for tid, (events, dt) in enumerate(zip(traces, details), 1):
+        if tid not in verdicts and not events:
+            continue            # the first evaluation of this history raised (reported above as C03:history:raises): nothing was recorded
         if tid not in verdicts:
             raise Machinery(f"trace {tid} not consumed by TraceRescale")
         clause, at = verdicts[tid]
